@@ -8,7 +8,8 @@ def run(rep, tier, seed):
     q = tier == 'quick'
     runs = [('W1', dict(W=1, L=1, turns=14, env_per_turn=3, max_conns=7 if q else 9, actions=acts, checks=(chk_c03,))),
             ('W1-race', dict(W=1, L=1, turns=12, env_per_turn=2, max_conns=5 if q else 7, actions=acts, race=True, pickup=True, checks=(chk_c03,))),
-            ('W2', dict(W=2, L=1, turns=12, env_per_turn=2, max_conns=5 if q else 6, actions=acts, pickup=True, checks=(chk_c03,)))]
+            ('W2', dict(W=2, L=1, turns=12, env_per_turn=2, max_conns=5 if q else 6, actions=acts, pickup=True, checks=(chk_c03,))),
+            ('W1-L2', dict(W=1, L=2, turns=12, env_per_turn=2, max_conns=4 if q else 6, actions=acts, checks=(chk_c03,)))]
     if not q:
         runs += [('W2-L2', dict(W=2, L=2, turns=10, env_per_turn=2, max_conns=5, actions=acts, checks=(chk_c03,))),
                  ('W3', dict(W=3, L=1, turns=10, env_per_turn=3, max_conns=6, actions=acts, checks=(chk_c03,)))]
